@@ -1,6 +1,7 @@
 import Rivaas.Proto
 import Rivaas.Spec.Version
 import Rivaas.Spec.VersionCfg
+import Rivaas.Model.VersionChain
 /-
 Driver for C13. Case line:
   <id> <nOpts> { P <pattern> | H <name> | Q <param> | A <pattern> | C <n> }*
@@ -177,11 +178,40 @@ def stepO (id : String) (inp obs : List String) : String :=
     verdict id (o == some m) sOK "-" (encCfgObs m)
   | _, _ => s!"{id} bad-case"
 
+/-! ### handler-chain cases of the app layer:
+  <id> G <n> { U <g> <k> <id>* | S <parent> <child> <k> <id>* | R <g> <route> <k> <before>* <k> <after>* | A <k> <id>* }*
+    => X | <n> { <route> <status> <k> <marker>* }* -/
+
+open Rivaas.VersionChain in
+def pGOp : P GOp := do
+  let k ← tok
+  if k == "U" then (do let g ← nat; let ids ← list nat; pure (.use g ids))
+  else if k == "S" then (do let p ← nat; let c ← nat; let ids ← list nat; pure (.sub p c ids))
+  else if k == "R" then (do let g ← nat; let r ← nat; let b ← list nat; let a ← list nat; pure (.route g r b a))
+  else if k == "A" then GOp.appUse <$> list nat
+  else failure
+
+def encNats (l : List Nat) : String := s!"{l.length}" ++ String.join (l.map fun n => s!" {n}")
+
+/-- oracle for a chain case (the statement only says the version route is served): every route answers 200 and its
+    handler runs exactly once -/
+def chainOK (o : List (Nat × Nat × List Nat)) : Bool := o.all fun (_, st, seen) => st == 200 && seen.count 0 == 1
+
+def stepG (id : String) (inp obs : List String) : String :=
+  match runP (do lit "G"; list pGOp) inp,
+        runP (list (do let r ← nat; let st ← nat; let seen ← list nat; pure (r, st, seen))) obs with
+  | some ops, some o =>
+    let m := (VersionChain.chains ops).map fun (r, c) => (r, 200, c)
+    verdict id (o == m) (chainOK o) "-"
+      (s!"{m.length}" ++ String.join (m.map fun (r, st, c) => s!" {r} {st} " ++ encNats c))
+  | _, _ => s!"{id} bad-case"
+
 def step (line : String) : String :=
   match splitCase line with
   | none => "? bad-line"
   | some (id, inp, obs) =>
     if inp.head? == some "O" then stepO id inp obs else
+    if inp.head? == some "G" then stepG id inp obs else
     match runP pInput inp, runP (do let o ← pObs; let e ← pEvents; pure (o, e)) obs with
     | some (cfg, routes, req), some (o, evs) =>
       let m := serve cfg routes req
